@@ -104,8 +104,8 @@ class C06(EngineProp):
     def classify(self, case, obs):
         """known: a timed Hold / Pause that survives Stop's cancel pass (its second cancellation raises in tracking and the
         clean-up is skipped) runs once more after Stop has finished and sets System State back from Stopped. Every failing
-        clause must lie in such a window: it opens at the view of a run stop whose previous view had Stop registered together
-        with a Hold or Pause, shows a System State other than Stopped while no run is started, and lasts until a run starts"""
+        clause must lie in such a window: it opens at the view of a run stop whose previous view had Stop or Restart registered
+        together with a Hold or Pause, shows a System State other than Stopped while no run is started, and lasts until a run starts"""
         views, ops = obs["views"], case["ops"]
 
         def state_ok(v):
@@ -125,7 +125,7 @@ class C06(EngineProp):
                 inside = False
             if not inside and k > 0 and any(e[0] == "runstop" for e in v["events"]) and not v["flags"][0] and v["sys"] != "Stopped":
                 reg = views[k - 1]["reg"]
-                if "Stop" in reg and ("Hold" in reg or "Pause" in reg):
+                if ("Stop" in reg or "Restart" in reg) and ("Hold" in reg or "Pause" in reg):
                     inside = True
             window[k] = inside
         seen = False
